@@ -335,3 +335,8 @@ Proof.
     rewrite (proj2 (dna_eqb_eq _ _) eq_refl) in Hx. assert (false = true); [|discriminate]. symmetry. apply Hx. apply in_map. exact He.
 Qed.
 End ShardTableOf.
+Print Assumptions shard_pre_spec.
+Print Assumptions shard_tbl_ok.
+Print Assumptions shard_links_loose.
+Print Assumptions table_of_shard_spec.
+Print Assumptions table_of_shard_total.
